@@ -2,7 +2,7 @@
    Tp/TpProofs.v, Tp/TpOracleProofs.v or Tp/TpCalProofs.v and followed by Print Assumptions.
    The model is the transcription of the tree WITH repo_patches/C08-remove-segment-boundaries.diff
    (tp_fixed = true); tp_fixed = false is the pinned tree and is used only by C08_remove_refuted. *)
-From Icv Require Import Base.Tac Tp.TpModel Tp.TpProofs Tp.TpObs Tp.TpOracleProofs Tp.TpCal Tp.TpCalObs Tp.TpCalProofs.
+From Icv Require Import Base.Tac Tp.TpModel Tp.TpProofs Tp.TpObs Tp.TpOracleProofs Tp.TpCal Tp.TpCivil Tp.TpCalObs Tp.TpCalProofs.
 Local Open Scope Z_scope.
 
 (* ---------------- M1: interval algebra, all segment lists, all instants ---------------- *)
@@ -153,13 +153,21 @@ Theorem C08_stride_refuted :
 Proof. exact tp_stride_refuted. Qed.
 Print Assumptions C08_stride_refuted.
 
-(* calendar arithmetic used by the model: days <-> civil date round trip, bound in the statement *)
-Theorem C08_civil_roundtrip_60000 :
-  forallb (fun z => let '(y, m, d) := tp_civil_from_days z in
-                    (tp_days_from_civil y m d =? z) && (1 <=? m) && (m <=? 12) && (1 <=? d) && (d <=? 31))
-          (tp_zrange 0 60000) = true.
-Proof. exact tp_civil_roundtrip_60000. Qed.
-Print Assumptions C08_civil_roundtrip_60000.
+(* calendar arithmetic used by the model, for ALL day numbers / all valid dates (all of Z; the only
+   computation is a sweep over one 400-year era, a finite domain, inside the proofs in Tp/TpCivil.v):
+   days -> civil date -> days is the identity and the date is well-formed ... *)
+Theorem C08_days_civil_days : forall z,
+  let '(y, m, d) := tp_civil_from_days z in
+  tp_days_from_civil y m d = z /\ 1 <= m <= 12 /\ 1 <= d <= 31.
+Proof. exact tp_days_civil_days. Qed.
+Print Assumptions C08_days_civil_days.
+
+(* ... and civil date -> days -> civil date is the identity for every valid Gregorian date *)
+Theorem C08_civil_days_civil : forall y m d,
+  1 <= m <= 12 -> 1 <= d <= tp_days_in_month y m ->
+  tp_civil_from_days (tp_days_from_civil y m d) = (y, m, d).
+Proof. exact tp_civil_days_civil. Qed.
+Print Assumptions C08_civil_days_civil.
 
 (* non-vacuity: the premises of C08_update_region and C08_ranges_fixed_offset_partial are met by
    non-trivial states: an exclusion sharing its begin with the range (the F-C08-a shape) ... *)
